@@ -85,12 +85,8 @@ fn fault_site(world: &World, ei: usize, marks: &[Mark]) -> String {
 }
 
 pub fn execute(scn: &WfScn, ctx: &mut Ctx) {
-    if matches!(scn.w.ending, Ending::WriteShapes(_)) {
-        ctx.fail("HARNESS", "invalid-scenario", "family", "WFAULT workloads are made of write_shape, finalize and drop only".to_string());
-        return;
-    }
-    if scn.w.calls.iter().any(|c| matches!(c, WCall::Other(_))) {
-        // workloads of the wfault-c02 phase with rejected writes in between: judged there only
+    if scn.w.calls.iter().any(|c| matches!(c, WCall::Other(_))) || matches!(scn.w.ending, Ending::WriteShapes(_)) {
+        // workloads of the wfault-c02 phase with rejected writes in between or ended by the bulk call: judged there only
         execute_c02(scn, ctx);
         return;
     }
@@ -160,6 +156,21 @@ fn run_faulted(scn: &WfScn, g: &Golden, ctx: &mut Ctx) {
                 fault_site(&wb, ei, &run.marks),
                 format!("history {}: device operation {:?} on {} at pos {} failed ({:?}{}) during {}, which returned Ok", pat, e.kind, DEV_NAMES[e.dev as usize], e.pos, e.err, if e.fault == Some("zero") { " Ok(0)" } else { "" }, m.call),
             );
+        }
+    }
+    // C18 at the seam, under faults too: whenever a write reports success, the bytes that reached the
+    // .shp during the call are the 8-byte record header, the type code and exactly the announced size (Direct stack: nothing of the harness buffers in between)
+    if scn.w.stack == StackCfg::Direct {
+        for m in &run.marks {
+            if let (Some(a), true) = (m.announced, m.res.is_ok()) {
+                // where they went is not C18's business (after a write that failed inside the header
+                // reservation the next record is not where it belongs): the count is, with or
+                // without the 100 bytes of a header reserved by the same call
+                let record_bytes: u64 = wb.log[m.first_ev..m.end_ev].iter().filter(|e| e.dev as usize == SHP && e.kind == OpKind::Write).map(|e| e.moved as u64).sum();
+                if record_bytes != 12 + a as u64 && record_bytes != 112 + a as u64 {
+                    ctx.fail("C18", "bytes-at-seam-under-faults", type_name(scn.w.shapes.first().map(|s| s.ty).unwrap_or(0)), format!("history {}: {} returned Ok and {} bytes reached the .shp for an announced size of {} (+12)", pat, m.call, record_bytes, a));
+                }
+            }
         }
     }
     let any_err = run.marks.iter().any(|m| !m.res.is_ok());
@@ -486,7 +497,7 @@ pub fn execute_c02(scn: &WfScn, ctx: &mut Ctx) {
         return;
     }
     // from the last explicit finalize (if none succeeded: from the drop) on, nothing may have failed
-    let from = run.marks.iter().rev().find(|m| m.call == "finalize" && m.res.is_ok()).or_else(|| run.marks.iter().rev().find(|m| m.call == "drop")).map(|m| m.first_ev);
+    let from = run.marks.iter().rev().find(|m| m.call == "finalize" && m.res.is_ok()).or_else(|| run.marks.iter().rev().find(|m| m.call == "drop" || m.call == "write_shapes")).map(|m| m.first_ev);
     let Some(from) = from else { return };
     if wb.log[from..].iter().any(|e| e.err.is_some() || e.fault == Some("zero")) {
         ctx.stats.reach("c02-last-finalize-disturbed");
@@ -494,12 +505,12 @@ pub fn execute_c02(scn: &WfScn, ctx: &mut Ctx) {
     }
     // a failed finalize after the last successful one must have been followed by the drop
     if let Some(last_fail) = run.marks.iter().rposition(|m| m.call == "finalize" && !m.res.is_ok()) {
-        let later_ok = run.marks[last_fail..].iter().any(|m| (m.call == "finalize" && m.res.is_ok()) || m.call == "drop");
+        let later_ok = run.marks[last_fail..].iter().any(|m| (m.call == "finalize" && m.res.is_ok()) || m.call == "drop" || m.call == "write_shapes");
         if !later_ok {
             return;
         }
         // the drop's own finalize must then have been undisturbed
-        let drop_from = run.marks.iter().rev().find(|m| m.call == "drop").map(|m| m.first_ev).unwrap_or(wb.log.len());
+        let drop_from = run.marks.iter().rev().find(|m| m.call == "drop" || m.call == "write_shapes").map(|m| m.first_ev).unwrap_or(wb.log.len());
         if wb.log[drop_from..].iter().any(|e| e.err.is_some() || e.fault == Some("zero")) {
             return;
         }
@@ -511,7 +522,7 @@ pub fn execute_c02(scn: &WfScn, ctx: &mut Ctx) {
     let _ = crate::fam_rt::check_bytes(ctx, ty, wb.data(SHP), shx, &written, "after-failed-finalize");
     // C09: a finalize that fails is still a finalize call of the interleaving - what the drop
     // leaves is what writing the same shapes and simply dropping the writer leaves
-    let plain = WProg { shapes: scn.w.shapes.clone(), others: vec![], calls: scn.w.calls.iter().filter(|c| matches!(c, WCall::W(_))).cloned().collect(), ending: Ending::Drop, with_shx: scn.w.with_shx, stack: StackCfg::Direct };
+    let plain = WProg { shapes: scn.w.shapes.clone(), others: vec![], calls: scn.w.calls.iter().filter(|c| matches!(c, WCall::W(_))).cloned().collect(), ending: if matches!(scn.w.ending, Ending::WriteShapes(_)) { scn.w.ending.clone() } else { Ending::Drop }, with_shx: scn.w.with_shx, stack: StackCfg::Direct };
     if let Some(g) = golden(&plain) {
         if wb.data(SHP) != &g.shp[..] || (scn.w.with_shx && wb.data(SHX) != &g.shx[..]) {
             let at = wb.data(SHP).iter().zip(g.shp.iter()).position(|(a, b)| a != b);
@@ -585,7 +596,13 @@ pub fn unit_c02(seed: u64, ctx: &mut Ctx, ctl: &mut UnitCtl) {
             calls = c2;
         }
     }
-    let w = WProg { shapes, others, calls, ending: if r.chance(1, 2) { Ending::Drop } else { Ending::FinDrop }, with_shx: r.chance(2, 3), stack: StackCfg::Direct };
+    // a third of the workloads end with the bulk call (which consumes the writer) handed some of the shapes again
+    let ending = match r.below(3) {
+        0 => Ending::Drop,
+        1 => Ending::FinDrop,
+        _ => Ending::WriteShapes((0..r.usize(1, 3)).map(|_| r.usize(0, n - 1)).collect()),
+    };
+    let w = WProg { shapes, others, calls, ending, with_shx: r.chance(2, 3), stack: StackCfg::Direct };
     let world = World::new(Plan::default());
     let run = run_writer(&world, &w);
     if run.build_panic.is_some() || run.marks.iter().any(|m| !m.res.is_ok() && !m.call.starts_with("write-other")) {
@@ -621,13 +638,47 @@ pub fn unit_c02(seed: u64, ctx: &mut Ctx, ctl: &mut UnitCtl) {
 }
 
 
+/// What the child process of the "stderr-gone" scenario runs: a small history with every device
+/// operation failing persistently in turn (so that the destination is still failing when the writer
+/// is dropped), judged as any other WFAULT case - in a process whose standard error stream has lost
+/// its reader, so that any diagnostic the library prints on an error path fails to be written.
+pub fn stderr_gone_child(ctx: &mut Ctx) {
+    for with_shx in [true, false] {
+        let w = WProg { shapes: vec![grid_spec(3, 1, 2, 3), grid_spec(3, 2, 3, 50)], others: vec![], calls: vec![WCall::W(0), WCall::W(1), WCall::Fin, WCall::W(0)], ending: Ending::Drop, with_shx, stack: StackCfg::Direct };
+        let Some(g) = golden(&w) else {
+            ctx.fail("HARNESS", "invalid-scenario", "workload", "the stderr-gone workload does not run cleanly".to_string());
+            return;
+        };
+        for dev in [SHP, SHX] {
+            for k in 0..g.ops[dev] {
+                for persistent in [true, false] {
+                    let mut plan = Plan::default();
+                    plan.faults.push(Fault { dev: dev as u8, at: k, kind: FaultKind::Err((k % 4) as u8), persistent });
+                    let scn = WfScn { w: w.clone(), plan };
+                    ctx.stats.evaluations += 1;
+                    execute(&scn, ctx);
+                }
+            }
+        }
+    }
+}
+
 /// C12 around one large record: a polyline of 70 000 points (more than 1 MiB of content) between two
 /// small ones, then finalize, written straight to the devices (no buffer of the harness in between,
 /// so that every byte the library hands over reaches the device within the call); the first 40 and
 /// the last 200 .shp operations of every call, and every .shx operation, fail once (one-shot and
 /// persistent): the failure must surface from the call in progress.
 pub fn large_unit(unit: u64, ctx: &mut Ctx, ctl: &mut UnitCtl) {
-    let w = WProg { shapes: vec![grid_spec(3, 1, 2, 3), grid_spec(3, 1, 70_000, 11), grid_spec(3, 1, 3, 60)], others: vec![], calls: vec![WCall::W(0), WCall::W(1), WCall::W(2), WCall::Fin], ending: Ending::Drop, with_shx: true, stack: StackCfg::Direct };
+    // units 0..8: one part of 70 000 points; units 8..16: 1025 parts of two points; units 16..24: 2049
+    // parts (more parts than any per-shape limit or block of the writer), the latter with Z and M
+    let big = match unit / 8 {
+        0 => grid_spec(3, 1, 70_000, 11),
+        1 => grid_spec(3, 1025, 2, 11),
+        _ => grid_spec(13, 2049, 2, 11),
+    };
+    let ty = big.ty;
+    let many_parts = unit / 8 > 0;
+    let w = WProg { shapes: vec![grid_spec(ty, 1, 2, 3), big, grid_spec(ty, 1, 3, 60)], others: vec![], calls: vec![WCall::W(0), WCall::W(1), WCall::W(2), WCall::Fin], ending: Ending::Drop, with_shx: true, stack: StackCfg::Direct };
     let Some(g) = golden(&w) else {
         ctx.fail("HARNESS", "invalid-scenario", "workload", "the large workload does not run cleanly".to_string());
         return;
@@ -644,7 +695,8 @@ pub fn large_unit(unit: u64, ctx: &mut Ctx, ctl: &mut UnitCtl) {
             let ops: Vec<u32> = shp_evs.iter().enumerate().filter(|(_, ei)| **ei >= m.first_ev && **ei < m.end_ev).map(|(k, _)| k as u32).collect();
             let n = ops.len();
             for (j, k) in ops.iter().enumerate() {
-                if j < 40 || j + 200 >= n {
+                // around the part offsets of a many-part shape every operation counts: the first 1200 too
+                if j < 40 || j + 200 >= n || (many_parts && (j < 1200 || j % 7 == 0)) {
                     picks.push((SHP, *k));
                 }
             }
